@@ -131,8 +131,18 @@ OuterLoop:
 					if err != nil {
 						return "", err
 					}
+					// The width and the precision are in bytes, whereas fmt
+					// counts runes: apply them here and have fmt copy the
+					// result (as for the integer verbs).
+					if foundDot && prec < len(s) {
+						s = s[:prec]
+					}
+					s = padString(s, length, flags.minus)
 					tmpMem += t.RequireBytes(len(s))
 					arg = string(s)
+					for k := start; k < i; k++ {
+						outFormat[k] = ' '
+					}
 					break ArgLoop
 				case 'q':
 					// quote, only for literals I think
